@@ -6,8 +6,10 @@
 
     io.Pipe is a rendezvous: a Write offers its bytes and returns when Reads have taken all
     of them (a zero-length Write is taken by exactly one Read, which gets nothing); after
-    the source's EOF ctxcopy performs one last zero-length Write, then the pipes are closed
-    and each reader sees EOF.  Threads interleave under an explicit schedule.  A consumer is
+    the source's EOF ctxcopy performs one last Write -- zero-length when the source reports
+    EOF on a read of its own (0, io.EOF), the last bytes when it reports it together with them
+    (n > 0, io.EOF: legal for an io.Reader) -- then the pipes are closed and each reader sees
+    EOF.  Threads interleave under an explicit schedule.  A consumer is
     represented by the list of pieces it has received: whatever it computes is a function of
     that list.  Definitions only; proofs in Conc/FanoutProofs.v. *)
 From Wharf Require Import Base.Prelude.
@@ -20,7 +22,9 @@ Inductive prodpc :=
 
 Record fstate := mkF {
   fup : list (list N);        (* what the source will still return, read by read *)
-  feof : bool;                (* the source has reported EOF *)
+  feof : bool;                (* the source has reported EOF, or will report it together with
+                                 its last chunk (ctxcopy: [eof = true], the loop ends after
+                                 the Write of that chunk) *)
   fcur : list N;              (* the chunk being written to both pipes *)
   fsent : list N;             (* bytes of the chunks completely written *)
   fpc : prodpc;
@@ -33,8 +37,12 @@ Record fstate := mkF {
 
 Inductive fthread := TProducer | TCons1 (buf : nat) | TCons2 (buf : nat) | TGroup.
 
-Definition init_fanout (chunks : list (list N)) : fstate :=
-  mkF chunks false [] [] PFetch [] false [] false false.
+(** [eofdata]: the source returns its last chunk together with io.EOF instead of reporting EOF
+    on one more read (a source without chunks can only do the latter) *)
+Definition init_fanout_eof (chunks : list (list N)) (eofdata : bool) : fstate :=
+  mkF chunks (eofdata && match chunks with [] => false | _ => true end) [] [] PFetch [] false [] false false.
+
+Definition init_fanout (chunks : list (list N)) : fstate := init_fanout_eof chunks false.
 
 Definition offer_valid (rest : list N) (once : bool) : bool :=
   once || match rest with [] => false | _ => true end.
